@@ -26,9 +26,13 @@ template <class Q>
 struct make_q<Q, true> { static Q* make( int ) { return new Q; } };
 
 // value-based queue adapter
+inline long rd( long v ) { return v; }
+inline long rd( Payload const& v ) { return v.read(); }
+
 template <class Q, bool Static, bool SC, bool Counted = true>
 struct VAdapter
 {
+    typedef typename Q::value_type V;
     BCfg cfg; std::unique_ptr<Q> q;
     explicit VAdapter( BCfg c ): cfg( c ) {}
     static const char* property() { return "C07"; }
@@ -36,22 +40,22 @@ struct VAdapter
     {
         q.reset( make_q<Q, Static>::make( cfg.capacity ));
         // cycle the ring so that the explored window works on lap numbers > 0
-        for ( int l = 0; l < cfg.laps * cfg.capacity + cfg.laps; ++l ) { long v = 7000 + l; q->enqueue( v ); long d; q->dequeue( d ); }
+        for ( int l = 0; l < cfg.laps * cfg.capacity + cfg.laps; ++l ) { V v( 7000 + l ); q->enqueue( v ); V d; q->dequeue( d ); }
     }
     void teardown() { q.reset(); }
     void thread_begin( int ) {}
     void thread_end( int ) {}
     template <bool S = SC> typename std::enable_if<S>::type sc_op( int t, History& h, POp const& op )
     {
-        if ( op.op == FRONT ) { int i = h.call( t, FRONT ); long* p = q->front(); h.ret( i, p != nullptr, p ? *p : 0 ); }
+        if ( op.op == FRONT ) { int i = h.call( t, FRONT ); V* p = q->front(); h.ret( i, p != nullptr, p ? rd( *p ) : 0 ); }
         else { int i = h.call( t, POP_FRONT ); bool ok = q->pop_front(); h.ret( i, ok, ok ? -1 : 0 ); }    // -1: removes the oldest item, whatever it is
     }
     template <bool S = SC> typename std::enable_if<!S>::type sc_op( int, History&, POp const& ) {}
     void apply( int t, History& h, POp const& op )
     {
         switch ( op.op ) {
-        case ENQ: { int i = h.call( t, ENQ, op.a ); bool ok = q->enqueue( op.a ); h.ret( i, ok ); break; }
-        case DEQ: { int i = h.call( t, DEQ ); long v = -1; bool ok = q->dequeue( v ); h.ret( i, ok, ok ? v : 0 ); break; }
+        case ENQ: { int i = h.call( t, ENQ, op.a ); V pl( op.a ); bool ok = ( op.a & 1 ) ? q->enqueue( pl ) : q->enqueue( std::move( pl )); h.ret( i, ok ); break; }
+        case DEQ: { int i = h.call( t, DEQ ); V v; bool ok = q->dequeue( v ); h.ret( i, ok, ok ? rd( v ) : 0 ); break; }
         case FRONT: case POP_FRONT: sc_op( t, h, op ); break;
         case EMPTY: { int i = h.call( t, EMPTY ); h.ret( i, q->empty()); break; }
         default: break;
@@ -60,7 +64,7 @@ struct VAdapter
     void drain( History& h )
     {
         if ( Counted ) { int i = h.call( -1, SIZE ); h.ret( i, long( q->size())); }
-        for ( int n = 0; n < 64; ++n ) { int i = h.call( -1, DEQ ); long v = -1; bool ok = q->dequeue( v ); h.ret( i, ok, ok ? v : 0 ); if ( !ok ) break; }
+        for ( int n = 0; n < 64; ++n ) { int i = h.call( -1, DEQ ); V v; bool ok = q->dequeue( v ); h.ret( i, ok, ok ? rd( v ) : 0 ); if ( !ok ) break; }
         int i = h.call( -1, EMPTY ); h.ret( i, q->empty());
     }
     void quiescent( Result&, History const& ) {}
@@ -148,8 +152,14 @@ void add_sc_family( std::string const& tname, int cap, int laps )
         p.threads = { c, pr };
         g_scen.push_back( make_scenario<Adapter>( base, p, BCfg{ 2, cap, laps }, 0, 4, 7 ));
     }
-    Program p; p.name = "sc-2producers"; p.threads = { { { POP_FRONT, 0, 0 }, { POP_FRONT, 0, 0 } }, { { ENQ, 1, 0 } }, { { ENQ, 2, 0 } } };
-    g_scen.push_back( make_scenario<Adapter>( base, p, BCfg{ 3, cap, laps }, 0, 2, 3 ));
+    // two producers: one may have claimed the head cell without having published it while the other's push is complete
+    int k = 0;
+    for ( auto const& c : std::vector<TProg>{ { { POP_FRONT, 0, 0 }, { POP_FRONT, 0, 0 } }, { { FRONT, 0, 0 }, { POP_FRONT, 0, 0 } }, { { EMPTY, 0, 0 }, { FRONT, 0, 0 } }, { { FRONT, 0, 0 }, { FRONT, 0, 0 } } } )
+        for ( int fill : { 0, 1 } ) {
+            Program p; p.name = "sc-2producers" + std::to_string( k++ ); for ( int i = 0; i < fill; ++i ) p.prefix.push_back( POp{ ENQ, 40 + i, 0 } );
+            p.threads = { c, { { ENQ, 1, 0 } }, { { ENQ, 2, 0 } } };
+            g_scen.push_back( make_scenario<Adapter>( base, p, BCfg{ 3, cap, laps }, 0, 2, 3 ));
+        }
 }
 
 } // namespace
@@ -159,10 +169,10 @@ int main( int argc, char** argv )
     vh::take_property( argc, argv, "C07" );
     cds::Initialize();
 
-    typedef cc::VyukovMPMCCycleQueue<long, dyn_traits> vq_dyn;
+    typedef cc::VyukovMPMCCycleQueue<Payload, dyn_traits> vq_dyn;
     typedef cc::VyukovMPMCCycleQueue<long, st_traits<2>> vq_st2;
     typedef cc::VyukovMPMCCycleQueue<long, st_traits<4>> vq_st4;
-    typedef cc::VyukovMPMCCycleQueue<long, sc_traits> vq_sc;
+    typedef cc::VyukovMPMCCycleQueue<Payload, sc_traits> vq_sc;
     typedef ci::VyukovMPMCCycleQueue<Item, istat_traits> ivq;
 
     add_family<VAdapter<vq_dyn, false, false>>( "Vyukov-dynamic", 2, 0, 1 );
